@@ -48,8 +48,10 @@ RowVerdict == step <= Len(Rows) =>
 IdVerdict == step > Len(Rows) =>
   LET id == IdSeq[step - Len(Rows)] IN
     IF ~(Involved(id) \subseteq RecNames) THEN PrintT(ToJson([id |-> id, evaluated |-> FALSE]))
-    ELSE PrintT(ToJson([id |-> id, evaluated |-> TRUE, holds |-> IdHolds(id, RecNum, RecK),
-                        digits |-> IdPrecision(id, RecK), dist |-> BDist(Lhs(id, RecNum), Rhs(id, RecNum)),
+    \* mutual consistency does not depend on how coarsely the library happens to WRITE a constant:
+    \* the identities are compared to the precision of the reference values (at most 7 digits)
+    ELSE PrintT(ToJson([id |-> id, evaluated |-> TRUE, holds |-> IdHolds(id, RecNum, RefK),
+                        digits |-> IdPrecision(id, RefK), dist |-> BDist(Lhs(id, RecNum), Rhs(id, RecNum)),
                         lhs |-> Lhs(id, RecNum), rhs |-> Rhs(id, RecNum)]))
 
 \* reference rows for which the library exports nothing (informational)
